@@ -197,9 +197,8 @@ func (ev *evaluator) eval(n *Node) any {
 	case NAssignField:
 		v := ev.eval(n.R)
 		b := ev.cur()
-		if n.Name == "TYPE" || n.Name == "NAME" {
-			ev.res.Unspecified = "assignment to TYPE/NAME"
-		}
+		// a field literally called TYPE or NAME is an ordinary entry of Fields; reading TYPE / NAME
+		// still gives the block's own type and name (the property states that unconditionally)
 		if old, ok := b.Fields[n.Name]; ok {
 			if _, isBlock := old.(*Block); isBlock {
 				ev.res.Unspecified = "field assigned under the key of a closed child"
